@@ -81,6 +81,10 @@ fn kind_name(op: &Op) -> &'static str {
         Op::DropTask { .. } => "DropTask",
         Op::Twin { .. } => "Twin",
         Op::TeardownCalls { .. } => "TeardownCalls",
+        Op::LocalBurst { .. } => "LocalBurst",
+        Op::Collect { .. } => "Collect",
+        Op::UnwindScope { .. } => "UnwindScope",
+        Op::ScopeBurst { .. } => "ScopeBurst",
     }
 }
 
@@ -115,6 +119,7 @@ pub fn evaluate(prop: &str, case: &Case, model: &Model, hist: &History) -> Verdi
         "C10" => crate::oracle2::c10(&a, &mut v),
         "C11" => crate::oracle2::c11(&a, &mut v),
         "C16" => crate::oracle2::c16(&a, &mut v),
+        "C07" => crate::oracle3::c07(&a, &mut v),
         "C13" => crate::oracle3::c13(&a, &mut v, "C13"),
         "C14" => crate::oracle3::c13(&a, &mut v, "C14"),
         "C17" => crate::oracle3::c17(&a, &mut v),
